@@ -31,6 +31,9 @@ func runC10(c *Ctx) {
 	}
 	c.floor("C10.R5", 25)
 	poolDiscipline(c, "C10.R6")
+	if c.thorough() {
+		generatedErrHandling(c, "C10.R7")
+	}
 }
 
 func isErrorType(t types.Type) bool { return t != nil && t.String() == "error" }
